@@ -139,6 +139,25 @@ def run_cfg(ctx, cfg):
                    "the value returned by should_cancel_with_value is matched and carried into Err / Cancelled")
     ctx.floor("poll-value-propagated" + tag, "cancellation polls in the solver", n_polls, 3)
 
+    # ---- rule 1c: fan-outs short-circuit on the first error ----------------------------------
+    # union members are fetched with try_join_all, which stops polling the remaining members as soon as one of them reports
+    # the cancellation; join_all (+ collect into a Result) keeps driving the siblings, which start further provider calls
+    n_tj = 0
+    for b in crate.bodies:
+        if not b.key.startswith("resolvo::solver::") or b.crate.is_test:
+            continue
+        for i, t in b.calls():
+            f = t.get("f")
+            if f is None:
+                continue
+            ks = callee_keys(f)
+            if any(k.endswith("::try_join_all") for k in ks):
+                n_tj += 1
+            if any(k.endswith("::join_all") or k.endswith("::join") or k.endswith("::join3") for k in ks) and "try_" not in f["name"]:
+                ctx.ob("short-circuit" + tag, b.key, "fan-out-stops-at-first-error:%s" % f["name"], False, where_call(b, i),
+                       "a non-short-circuiting join keeps polling the other members after one of them returned the cancellation")
+    ctx.floor("short-circuit" + tag, "try_join_all fan-outs on the solver path", n_tj, 2)
+
     # ---- rule 2: poll per propagation round -------------------------------------------
     prop = body_by_key(crate, SOLVER + "propagate")
     if prop is None:
